@@ -6,7 +6,7 @@
      html.escape (CPython Lib/html/__init__.py, quote=True)   five consecutive str.replace calls
      mapproxy/util/escape.py  escape_html                      five consecutive str.replace calls
      mapproxy/exception.py    XMLExceptionHandler.render, OWSExceptionHandler.render
-                              msg = escape(request_error.msg); template.substitute(exception=msg, code=.., locator=..)
+                              msg = escape(_xml_illegal.sub(U+FFFD, request_error.msg)); template.substitute(exception=msg, code=.., locator=..)
      mapproxy/util/ext/tempita  Template.substitute restricted to the constructs used by the exception
                               templates: literal text, {{var}}, {{if var is not None}}..{{endif}},
                               {{if var is None}}..{{else}}..{{endif}}; _repr(None) = `` .
@@ -196,9 +196,22 @@ Definition r_piece (e : env) (p : piece) : str :=
   end.
 Definition render (e : env) (t : list piece) : str := flat_map (r_piece e) t.
 
-(* XMLExceptionHandler.render / OWSExceptionHandler.render: the document for (msg, code, locator) *)
-Definition exception_doc (t : list piece) (msg : str) (code loc : option str) : str :=
+(* characters that an XML 1.0 document may contain (production Char) *)
+Definition xml_char (c : Z) : bool :=
+  (c =? 9) || (c =? 10) || (c =? 13) || ((32 <=? c) && (c <=? 55295)) || ((57344 <=? c) && (c <=? 65533))
+  || ((65536 <=? c) && (c <=? 1114111)).
+(* _xml_illegal.sub(U+FFFD, msg) with _xml_illegal = the complement of the Char production:
+   every character that XML 1.0 cannot represent is replaced by U+FFFD *)
+Definition xml_sanitize (s : str) : str := map (fun c => if xml_char c then c else 65533) s.
+
+(* the template rendered with an already sanitised message *)
+Definition exception_doc_raw (t : list piece) (msg : str) (code loc : option str) : str :=
   render {| e_exc := html_escape msg; e_code := code; e_loc := loc |} t.
+
+(* XMLExceptionHandler.render / OWSExceptionHandler.render: the document for (msg, code, locator)
+     msg = escape(_xml_illegal.sub(U+FFFD, request_error.msg)); template.substitute(exception=msg, code=.., locator=..) *)
+Definition exception_doc (t : list piece) (msg : str) (code loc : option str) : str :=
+  exception_doc_raw t (xml_sanitize msg) code loc.
 
 (* Split a template at its (first top-level) {{exception}} placeholder. *)
 Definition is_exc_piece (p : piece) : bool := match p with A (Sub VExc) => true | _ => false end.
@@ -241,13 +254,6 @@ Definition opt_strs (l : list str) : list (option str) := None :: map Some l.
 Definition templates_ok (ts : list (list piece)) (codes locs : list str) : bool :=
   forallb (fun t => forallb (fun c => forallb (fun l => template_ok t c l) (opt_strs locs)) (opt_strs codes)) ts.
 
-(* characters that an XML 1.0 document may contain (production Char) *)
-Definition xml_char (c : Z) : bool :=
-  (c =? 9) || (c =? 10) || (c =? 13) || ((32 <=? c) && (c <=? 55295)) || ((57344 <=? c) && (c <=? 65533))
-  || ((65536 <=? c) && (c <=? 1114111)).
-(* replacement of every character that XML 1.0 cannot represent by U+FFFD (the repair proposed in
-   proposed_fixes/C18-xml-illegal-characters.md: _xml_illegal.sub(U+FFFD, msg)) *)
-Definition xml_sanitize (s : str) : str := map (fun c => if xml_char c then c else 65533) s.
 Definition template_chars_ok (t : list piece) (code loc : option str) : bool :=
   forallb xml_char (render (env0 code loc) (tpl_before t)) && forallb xml_char (render (env0 code loc) (tpl_after t)).
 Definition templates_chars_ok (ts : list (list piece)) (codes locs : list str) : bool :=
@@ -295,5 +301,5 @@ Fixpoint balanced_sk (stack : list str) (l : list (option (bool * str))) : bool 
   end.
 Definition well_nested (toks : list tok) : bool := balanced_sk [] (skeleton toks).
 Definition templates_nested (ts : list (list piece)) (codes locs : list str) : bool :=
-  forallb (fun t => forallb (fun c => forallb (fun l => well_nested (tokenize (exception_doc t [] c l)))
+  forallb (fun t => forallb (fun c => forallb (fun l => well_nested (tokenize (exception_doc_raw t [] c l)))
                                               (opt_strs locs)) (opt_strs codes)) ts.
